@@ -31,7 +31,14 @@ theorem verdict :
 #print axioms stale_cache_witness
 #print axioms refutes_stale_cache
 #print axioms island_zero_panics
+#print axioms second_location_sound
+#print axioms stale_path_witness
+#print axioms refutes_stale_path
+#print axioms nfc_nfd_are_different_names
 #print axioms route_partition
+#print axioms unrouted_is_error
+#print axioms unrouted_nil_witness
+#print axioms refutes_unrouted_nil
 #print axioms every_name_routed
 #print axioms routing_gap_witness
 #print axioms routing_overlap_witness
